@@ -101,6 +101,83 @@ impl DV {
             other => other.clone(),
         }
     }
+    /// the tree without the flow wrappers that wrap no collection (looking through Some and the other wrappers);
+    /// the flag says whether anything was dropped
+    pub fn without_inapplicable_flow(&self) -> (DV, bool) {
+        fn core(x: &DV) -> &DV {
+            match x {
+                DV::Some(y) | DV::W(_, y) => core(y),
+                o => o,
+            }
+        }
+        match self {
+            DV::W(w @ (Wrap::FlowSeq | Wrap::FlowMap), x) => {
+                // the hint may be taken by the first collection of its kind anywhere inside the wrapped value;
+                // it is inapplicable only when there is none at all (then whatever it changes lies outside)
+                fn contains(x: &DV, seq: bool) -> bool {
+                    match x {
+                        DV::Seq(v) => seq || v.iter().any(|y| contains(y, seq)),
+                        DV::Map(v) | DV::Struct(v) => !seq || v.iter().any(|(_, y)| contains(y, seq)),
+                        DV::Variant(y) => !seq || contains(y, seq),
+                        DV::Some(y) | DV::W(_, y) => contains(y, seq),
+                        _ => false,
+                    }
+                }
+                let _ = core(x);
+                let applies = contains(x, matches!(w, Wrap::FlowSeq));
+                let (inner, d) = x.without_inapplicable_flow();
+                if applies {
+                    (DV::W(*w, Box::new(inner)), d)
+                } else {
+                    (inner, true)
+                }
+            }
+            DV::W(w, x) => {
+                let (i, d) = x.without_inapplicable_flow();
+                (DV::W(*w, Box::new(i)), d)
+            }
+            DV::Some(x) => {
+                let (i, d) = x.without_inapplicable_flow();
+                (DV::Some(Box::new(i)), d)
+            }
+            DV::Variant(x) => {
+                let (i, d) = x.without_inapplicable_flow();
+                (DV::Variant(Box::new(i)), d)
+            }
+            DV::Seq(v) => {
+                let r: Vec<(DV, bool)> = v.iter().map(|x| x.without_inapplicable_flow()).collect();
+                let d = r.iter().any(|x| x.1);
+                (DV::Seq(r.into_iter().map(|x| x.0).collect()), d)
+            }
+            DV::Map(v) | DV::Struct(v) => {
+                let r: Vec<(String, (DV, bool))> = v.iter().map(|(k, x)| (k.clone(), x.without_inapplicable_flow())).collect();
+                let d = r.iter().any(|x| x.1 .1);
+                let es = r.into_iter().map(|(k, x)| (k, x.0)).collect();
+                (if matches!(self, DV::Map(_)) { DV::Map(es) } else { DV::Struct(es) }, d)
+            }
+            o => (o.clone(), false),
+        }
+    }
+    /// a flow wrapper with another flow wrapper somewhere inside the value it wraps
+    pub fn has_stacked_flow(&self) -> bool {
+        // (anywhere inside: the inner hint replaces the pending outer one)
+        fn chain_has_flow(x: &DV) -> bool {
+            match x {
+                DV::W(Wrap::FlowSeq | Wrap::FlowMap, _) => true,
+                DV::Some(y) | DV::W(_, y) | DV::Variant(y) => chain_has_flow(y),
+                DV::Seq(v) => v.iter().any(chain_has_flow),
+                DV::Map(v) | DV::Struct(v) => v.iter().any(|(_, y)| chain_has_flow(y)),
+                _ => false,
+            }
+        }
+        match self {
+            DV::W(Wrap::FlowSeq | Wrap::FlowMap, x) => chain_has_flow(x) || x.has_stacked_flow(),
+            DV::W(_, x) | DV::Some(x) | DV::Variant(x) => x.has_stacked_flow(),
+            DV::Seq(v) => v.iter().any(|x| x.has_stacked_flow()),
+            DV::Map(v) | DV::Struct(v) => v.iter().any(|(_, x)| x.has_stacked_flow()),
+            _ => false,
+        }
+    }
     /// the data the tree denotes, as the untyped reader sees it
     pub fn expected(&self) -> Tree {
         match self {
@@ -405,6 +482,20 @@ impl Prop for C20 {
             Err(e) => {
                 v.fail("not_wellformed", format!("{}: emitted {:?} does not scan: {}", what, text, e));
                 return v;
+            }
+        }
+        // a flow wrapper around something that is no sequence / mapping has nothing to lay out: the text is the
+        // one emitted without it (in particular no later sibling is written in flow style because of it)
+        let (plainer, dropped) = c.val.without_inapplicable_flow();
+        // (stacked flow wrappers are left alone: which of two hints on one node wins is not stated)
+        if dropped && !c.val.has_stacked_flow() {
+            v.execs += 1;
+            v.compared += 1;
+            if let Ok(Ok(t2)) = guarded(|| serde_saphyr::to_string_with_options(&Ser(&plainer), c.opts.to_lib())) {
+                if t2 != text {
+                    v.fail("inapplicable_flow_wrapper_changes_the_layout_of_other_nodes", format!("{}: emitted {:?}, without the flow wrapper(s) that wrap no collection {:?}", what, text, t2));
+                    return v;
+                }
             }
         }
         match to_tree(&text) {
